@@ -126,8 +126,8 @@ int main(int argc, char** argv)
 
   if(mode == "args")
   {
-    static const char* TOK[] = {"-a", "-ab", "-abo", "-oX", "-o", "-abc", "-", "--", "--aa", "--out=X", "--out", "--opt", "--opt=X", "--zz", "--aa=X", "X", "", "-ba", "--out="};
-    vf::Odometer od(19, len);
+    static const char* TOK[] = {"-a", "-ab", "-abo", "-oX", "-o", "-abc", "-", "--", "--aa", "--out=X", "--out", "--opt", "--opt=X", "--zz", "--aa=X", "X", "", "-ba", "--out=", "--o=X", "--=X"};   // "--o" is an ambiguous prefix (out, opt): unknown for getopt_long as well
+    vf::Odometer od((int)(sizeof(TOK) / sizeof(*TOK)), len);
     long long n = 0;
     while(od.next())
     {
